@@ -190,6 +190,26 @@ def extract_item(e):
     if n != 1:
         raise ExtractError(f"lost anchor: `{anchor}` found {n} times in {e['file']}")
     s = t.index(anchor)
+    if e.get("kind") == "block":
+        # a statement sequence (fragment of a larger body, e.g. inside a thread closure): from the anchor up to
+        # and including the end anchor, both unique
+        ea = e["end_anchor"]
+        if t.count(ea) != 1:
+            raise ExtractError(f"lost anchor: `{ea}` found {t.count(ea)} times in {e['file']}")
+        end = t.index(ea, s) + len(ea)
+        item = rewrite(t[s:end], e.get("keep_pub", False))
+        for a, b in e.get("sig_subst", []):
+            if item.count(a) != 1:
+                raise ExtractError(f"lost anchor for substitution: `{a}` in {e['key']}")
+            item = item.replace(a, b)
+        for ins in e.get("insert", []):
+            k = "before" if "before" in ins else "after"
+            if item.count(ins[k]) != 1:
+                raise ExtractError(f"lost anchor for annotation: `{ins[k]}` in {e['key']}")
+            item = item.replace(ins[k], (ins["text"] + "\n" + ins[k]) if k == "before" else (ins[k] + "\n" + ins["text"] + "\n"))
+        if e.get("msg_rule"):
+            item = msg_rule(item)
+        return item
     if e.get("kind", "fn") == "const":
         end = t.index(";", s) + 1
         return rewrite(t[s:end])
